@@ -2,6 +2,7 @@
   C14 — tagged forms carry exactly the structure's registered CBOR tag.
 -/
 import CosetProofs.Cbor.ParseAppend
+import CosetProofs.Cbor.FuelIrrelevant
 import CosetModel.Api
 namespace Coset.Props.C14
 open Coset Coset.Cbor
@@ -113,6 +114,206 @@ theorem decode_tagged_ok {α : Type} (t : Nat) (conv : Value → Res α) (bs : B
   | err e => simp [hv] at h
   | panic p => simp [hv] at h
 
+
+/-! ### the converse at byte level: whatever tagged decoding accepts *is* a head of the type's tag followed by an input the
+    untagged decoder accepts with the same result -/
+
+theorem beN_beVal : ∀ (n : Nat) (bs : Bytes), bs.length = n → beN n (beVal bs) = bs := by
+  intro n
+  induction n with
+  | zero => intro bs h; have : bs = [] := List.eq_nil_of_length_eq_zero h; subst this; rfl
+  | succ n ih =>
+    intro bs h
+    have hne : bs ≠ [] := by intro h0; subst h0; simp at h
+    have hsplit := List.dropLast_concat_getLast hne
+    rw [← hsplit, beVal_append_single]
+    have hl : bs.dropLast.length = n := by simp [h]
+    have hb := (bs.getLast hne).toNat_lt
+    simp only [beN]
+    have h1 : (beVal bs.dropLast * 256 + (bs.getLast hne).toNat) / 256 = beVal bs.dropLast := by omega
+    have h2 : UInt8.ofNat (beVal bs.dropLast * 256 + (bs.getLast hne).toNat) = bs.getLast hne := by
+      apply UInt8.toNat_inj.mp
+      simp only [UInt8.toNat_ofNat']; omega
+    rw [h1, h2, ih _ hl]
+
+theorem byte_of_parts (b : UInt8) (m k : Nat) (h1 : b.toNat / 32 = m) (h2 : b.toNat % 32 = k) : b = UInt8.ofNat (m * 32 + k) := by
+  apply UInt8.toNat_inj.mp
+  have := b.toNat_lt
+  simp only [UInt8.toNat_ofNat']; omega
+
+/-- a tag head read by `pull` is one of the five well-formed heads of that tag number, and the rest follows it. -/
+theorem pull_tag_inv (bs rest : Bytes) (t : Nat) (h : pull bs = some (.tag t, rest)) : ∃ hd, TagHead t hd ∧ bs = hd ++ rest := by
+  cases bs with
+  | nil => simp [pull] at h
+  | cons b rest0 =>
+    simp only [pull] at h
+    cases ha : pullArg (b.toNat % 32) rest0 with
+    | none => simp [ha] at h
+    | some p =>
+      obtain ⟨arg, r⟩ := p
+      simp only [ha] at h
+      have hmaj : b.toNat / 32 = 6 ∧ ∃ w, arg = some (t, w) ∧ r = rest := by
+        repeat' split at h
+        all_goals first
+          | (simp at h; done)
+          | (simp at h; obtain ⟨h1, h2⟩ := h; subst h1; subst h2; simp_all; done)
+      obtain ⟨h6, w, rfl, rfl⟩ := hmaj
+      unfold pullArg at ha
+      have wide : ∀ k minor, b.toNat % 32 = minor → ¬ rest0.length < k → k ≤ 8 →
+          (b :: rest0 = (UInt8.ofNat (6 * 32 + minor) :: beN k (beVal (rest0.take k))) ++ rest0.drop k) ∧ beVal (rest0.take k) < 256 ^ k := by
+        intro k minor hm hl hk
+        have hlen : (rest0.take k).length = k := by simp only [List.length_take]; omega
+        refine ⟨?_, by have := beVal_lt (rest0.take k); rw [hlen] at this; exact this⟩
+        rw [beN_beVal k _ hlen, ← byte_of_parts b 6 minor h6 hm]
+        simp
+      split at ha
+      · next hlt =>
+        simp at ha; obtain ⟨⟨rfl, -⟩, rfl⟩ := ha
+        exact ⟨_, TagHead.tiny hlt, by rw [← byte_of_parts b 6 _ h6 rfl]; rfl⟩
+      · split at ha
+        · next h24 =>
+          split at ha
+          · simp at ha
+          · next hl =>
+            simp at ha; obtain ⟨⟨rfl, -⟩, rfl⟩ := ha
+            obtain ⟨e, hb⟩ := wide 1 24 h24 hl (by omega)
+            exact ⟨_, TagHead.w1 (by omega), by simpa using e⟩
+        · split at ha
+          · next h25 =>
+            split at ha
+            · simp at ha
+            · next hl =>
+              simp at ha; obtain ⟨⟨rfl, -⟩, rfl⟩ := ha
+              obtain ⟨e, hb⟩ := wide 2 25 h25 hl (by omega)
+              exact ⟨_, TagHead.w2 (by omega), e⟩
+          · split at ha
+            · next h26 =>
+              split at ha
+              · simp at ha
+              · next hl =>
+                simp at ha; obtain ⟨⟨rfl, -⟩, rfl⟩ := ha
+                obtain ⟨e, hb⟩ := wide 4 26 h26 hl (by omega)
+                exact ⟨_, TagHead.w4 (by omega), e⟩
+            · split at ha
+              · next h27 =>
+                split at ha
+                · simp at ha
+                · next hl =>
+                  simp at ha; obtain ⟨⟨rfl, -⟩, rfl⟩ := ha
+                  obtain ⟨e, hb⟩ := wide 8 27 h27 hl (by omega)
+                  exact ⟨_, TagHead.w8 (by omega), e⟩
+              · split at ha <;> simp at ha
+
+/-- C14 (decode, converse direction), for a tag that is not a bignum tag: an input the tagged decoder accepts consists of a head of
+    exactly that tag number (in one of its five widths) followed by an input that the *untagged* decoder accepts with the same value. -/
+theorem decode_tagged_converse {α : Type} (t : Nat) (h2 : t ≠ 2) (h3 : t ≠ 3) (conv : Value → Res α) (bs : Bytes) (m : α)
+    (h : fromTaggedSlice t conv bs = .ok m) : ∃ hd body, bs = hd ++ body ∧ TagHead t hd ∧ fromSlice conv body = .ok m := by
+  obtain ⟨w, hr, hc⟩ := decode_tagged_ok t conv bs m h
+  -- open the parser by one step
+  unfold readToValue fromReader at hr
+  cases hp : parse (fuelFor bs) recursionLimit bs with
+  | ok p =>
+    obtain ⟨v, r⟩ := p
+    simp only [hp] at hr
+    split at hr
+    · next hemp =>
+      simp at hr; subst hr
+      have hr0 : r = [] := by simpa using hemp
+      subst hr0
+      obtain ⟨f, hf⟩ : ∃ f, fuelFor bs = f + 1 := ⟨fuelFor bs - 1, by unfold fuelFor; omega⟩
+      rw [hf, parse] at hp
+      cases hpl : pull bs with
+      | none => simp [hpl] at hp
+      | some q =>
+        obtain ⟨hd, rest⟩ := q
+        simp only [hpl] at hp
+        cases hd with
+        | tag t' =>
+          simp only [] at hp
+          cases hpk : (if t' = 2 ∨ t' = 3 then smallBytesPeek rest else none) with
+          | some q2 =>
+            -- a folded bignum: the result would be an integer or a tag 2/3, never tag t
+            obtain ⟨len, rest2⟩ := q2
+            have h23 : t' = 2 ∨ t' = 3 := by
+              by_cases hh : t' = 2 ∨ t' = 3
+              · exact hh
+              · simp [hh] at hpk
+            simp only [hpk] at hp
+            split at hp
+            · simp at hp
+            · split at hp
+              · next ht2 =>
+                simp at hp
+                unfold fromU128 at hp
+                split at hp
+                · simp at hp
+                · simp at hp; exact absurd hp.1.1.symm h2
+              · cases hfn : fromNegU128 (beVal (rest2.take len)) with
+                | none => simp [hfn] at hp
+                | some x =>
+                  simp [hfn] at hp
+                  unfold fromNegU128 at hfn
+                  split at hfn
+                  · simp at hfn
+                  · split at hfn
+                    · simp at hfn; rw [← hfn] at hp; simp at hp
+                    · simp at hfn; rw [← hfn] at hp; simp at hp; exact absurd hp.1.1.symm h3
+          | none =>
+            simp only [hpk] at hp
+            split at hp
+            · simp at hp
+            · cases hin : parse f (recursionLimit - 1) rest with
+              | ok q3 =>
+                obtain ⟨x, r'⟩ := q3
+                simp [hin] at hp
+                obtain ⟨⟨rfl, rfl⟩, rfl⟩ := hp
+                obtain ⟨hdb, hth, hbs⟩ := pull_tag_inv bs rest t' hpl
+                refine ⟨hdb, rest, hbs, hth, ?_⟩
+                -- the body parses to `x` at the entry point's fuel and full budget
+                have hl := pull_length _ _ _ hpl
+                have hbig : parse f recursionLimit rest = .ok (x, []) := by
+                  have := parse_append f f (recursionLimit - 1) recursionLimit rest [] x [] hin (Nat.le_refl _) (by omega)
+                  simpa using this
+                have hfr : fromReader rest = .ok (x, []) := by
+                  rw [fromReader_eq_parse rest f (by unfold fuelFor at hf; omega)]; exact hbig
+                simp [fromSlice, readToValue, hfr, hc]
+              | err => simp [hin] at hp
+              | oof => simp [hin] at hp
+        | pos n => simp at hp
+        | neg n => simp at hp
+        | bytes len =>
+          cases len with
+          | some n => simp only [] at hp; split at hp <;> simp at hp
+          | none => simp only [] at hp; split at hp <;> simp at hp
+        | text len =>
+          cases len with
+          | some n => simp only [] at hp; split at hp <;> (try split at hp) <;> simp at hp
+          | none => simp only [] at hp; split at hp <;> simp at hp
+        | array len =>
+          cases len with
+          | some n => simp only [] at hp; split at hp <;> (try split at hp) <;> simp at hp
+          | none => simp only [] at hp; split at hp <;> (try split at hp) <;> simp at hp
+        | map len =>
+          cases len with
+          | some n => simp only [] at hp; split at hp <;> (try split at hp) <;> simp at hp
+          | none => simp only [] at hp; split at hp <;> (try split at hp) <;> simp at hp
+        | float b => simp at hp
+        | simple n => simp only [] at hp; repeat' split at hp
+                      all_goals simp at hp
+        | brk => simp at hp
+    · simp at hr
+  | err => simp [hp] at hr
+  | oof => simp [hp] at hr
+
+/-- both directions together, for the six registered tags: tagged decoding accepts `bs` with value `m` iff `bs` is a head of the
+    type's tag followed by an input of nesting depth at most 255 that the untagged decoder accepts with value `m`. (The depth side
+    condition in the "if" direction is where the known finding D4 lives.) -/
+theorem decode_tagged_iff_partial {α : Type} (t : Nat) (h2 : t ≠ 2) (h3 : t ≠ 3) (conv : Value → Res α) (bs : Bytes) (m : α) :
+    (∃ hd body v, bs = hd ++ body ∧ TagHead t hd ∧ parse (fuelFor body) (recursionLimit - 1) body = .ok (v, []) ∧ conv v = .ok m) →
+      fromTaggedSlice t conv bs = .ok m := by
+  rintro ⟨hd, body, v, rfl, hth, hpb, hc⟩
+  rw [(decode_tagged_eq_untagged t conv hd body v hth h2 h3 hpb).1, hc]
+
 /-- non-vacuity: `d2 84 40 a0 f6 40` is a tagged COSE_Sign1; with tag 17 it is rejected; untagged decoding rejects it too. -/
 example : (fromTaggedSlice Gen.TAG_CoseSign1 CoseSign1.fromValue [0xd2, 0x84, 0x40, 0xa0, 0xf6, 0x40]).isOk = true := by decide +kernel
 example : (fromTaggedSlice Gen.TAG_CoseMac0 CoseMac0.fromValue [0xd2, 0x84, 0x40, 0xa0, 0xf6, 0x40]).isOk = false := by decide +kernel
@@ -131,5 +332,8 @@ example : TagHead 18 [0xd8, 0x12] := TagHead.w1 (by decide)
 #print axioms untagged_rejects_tagged
 #print axioms double_tag_rejected
 #print axioms decode_tagged_ok
+#print axioms pull_tag_inv
+#print axioms decode_tagged_converse
+#print axioms decode_tagged_iff_partial
 
 end Coset.Props.C14
